@@ -121,7 +121,7 @@ RQueued(c) ==
       rT(i) == tE(i) + D
       F(i)  == c.log[i].t1 + B                                             \* the attempt is in flight until here
       PrevR(i) == IF {k \in R : k < i} = {} THEN 0 ELSE MaxS({k \in R : k < i})
-      First(i) == MinS({k \in Cn : k > PrevR(i)})                          \* first connect of the chain that ended with attempt i
+      First(i) == LET S == {k \in Cn : k > PrevR(i) /\ k < i} IN IF S = {} THEN i ELSE MinS(S)   \* first connect of the chain that ended with attempt i
       P(i)  == c.log[First(i)].t
       Ks(i) == {e \in Sure : P(i) < rT(e) /\ rT(e) < F(i)}
       Kp(i) == {e \in Poss : P(i) <= rT(e) /\ rT(e) <= F(i)}
@@ -165,7 +165,7 @@ ASSUME PrintT(<<"@@judged", Len(Cases)>>)
 
 (* ---- Part 2: trace validation against Mon ------------------------------------------------------------------------ *)
 VARIABLE jc      \* the case being validated (the file is read once, in JInit)
-jvars == <<jc, cfg, now, nev, nfail, finSent, shut, subd, listed, delgo, shgo, atimer, apc, cgo, cw, cclose, cdoclose,
+jvars == <<jc, cfg, now, nev, nfail, finSent, shut, subd, listed, unsubgo, delgo, shgo, atimer, apc, cgo, cw, cclose, cdoclose,
            dbgo, dbArmed, dbDl, rcalls, inFlight, queued, consec, lp, h>>
 
 ML == jc.mlog
@@ -181,7 +181,7 @@ JTick ==
   /\ ~Busy /\ now < cfg.hz /\ ~h.dumped
   /\ (Len(h.log) < Len(ML) => ML[Len(h.log) + 1].t > now)
   /\ now' = MinS({d \in Deadlines : d > now} \cup (IF Len(h.log) < Len(ML) THEN {ML[Len(h.log) + 1].t} ELSE {}) \cup {cfg.hz})
-  /\ UNCHANGED <<jc, cfg, nev, nfail, finSent, shut, subd, listed, delgo, shgo, atimer, apc, cgo, cw, cclose, cdoclose,
+  /\ UNCHANGED <<jc, cfg, nev, nfail, finSent, shut, subd, listed, unsubgo, delgo, shgo, atimer, apc, cgo, cw, cclose, cdoclose,
                  dbgo, dbArmed, dbDl, rcalls, inFlight, queued, consec, lp, h>>
 
 (* the only environment step worth trying is the next one of the observed history *)
@@ -197,7 +197,7 @@ JAccept ==
   /\ (cfg.en => (subd = ~jc.unsub /\ listed = jc.listed))
   /\ PrintT(<<"@@conf", jc.case>>)
   /\ h' = [h EXCEPT !.dumped = TRUE]
-  /\ UNCHANGED <<jc, cfg, now, nev, nfail, finSent, shut, subd, listed, delgo, shgo, atimer, apc, cgo, cw, cclose, cdoclose,
+  /\ UNCHANGED <<jc, cfg, now, nev, nfail, finSent, shut, subd, listed, unsubgo, delgo, shgo, atimer, apc, cgo, cw, cclose, cdoclose,
                  dbgo, dbArmed, dbDl, rcalls, inFlight, queued, consec, lp>>
 
 JNext == JStep \/ JTick \/ JAccept
